@@ -3,7 +3,7 @@ from .. import sym
 from ..evalfn import SELF
 from ..sym import canon
 from . import core_rules
-from .common import ALGOS, CORE, G, Roles, cur, dominates, fld, guard_subset, has_lit, plain, short
+from .common import ALGOS, CORE, G, Roles, cur, dominates, fld, guard_subset, has_lit, increments_by, loop_conditions, plain, short
 from .core_rules import bound_args, equal, norm_versions
 
 TARGET = ("param", "target")
@@ -262,7 +262,7 @@ def close_flatten(chk, pid):
             amt = e.args[0] if e.args else None
             ok = amt is not None and amt[0] == "neg" and amt[1][0] == "fld" and amt[1][2] == field and canon(amt[1][1]) == canon(c)
             over_all = c[1][0] == "fld" and c[1][2] == "_childrenv"
-            filt = [l for l in e.loops[-1].filter] if e.loops else []
+            filt = [l for l in loop_conditions(e) if not core_rules.mentions_field(l[0], "_fixed_income", SELF)]
             filt_ok = len(filt) == 1 and filt[0][1] is False and filt[0][0][0] == "zero" and core_rules.mentions_field(filt[0][0], field, c)
             chk.ob("C16.R2", ok and over_all and filt_ok, CORE, host2, "flatten-all:%s" % name, "flatten closes every child with an open position", where=e.where,
                    expected="for every child: allocate(-value) / transact(-position) unless already zero", found=short(amt, 120) if amt else "?", sample={"amount": short(amt, 120) if amt else None})
@@ -298,7 +298,7 @@ def rebalance_over_time(chk, pid):
     # arming, countdown, clearing
     dw = S.writes("_days_left", SELF)
     arm = [w for w in dw if canon(w.value) == canon(fld(SELF, "n")) and sym.lit_holds(sym.sat(w.guard), ("in", ("str", "weights"), ("fld", ("param", "target"), "temp", 0)), True)]
-    dec = [w for w in dw if w.aug == "-" and canon(w.extra) == canon(sym.ONE)]
+    dec = [w for w in dw if increments_by(w, ("neg", sym.ONE))]
     clr = [w for w in dw if canon(w.value) == canon(sym.NONE)]
     chk.ob("C06.R8", len(arm) == 1, ALGOS, host, "countdown-armed", "new weights re-arm the countdown with n periods", where=fi.where, found="%d" % len(arm))
     chk.ob("C06.R8", len(dec) == 1, ALGOS, host, "countdown-decremented-once", "the countdown is decremented once per call", where=fi.where, found="%d" % len(dec))
